@@ -275,6 +275,9 @@ func (cf *c10Conf) errorAllowed() bool {
 	if cf.InitPN > c10MaxPN || cf.flightBuilder() {
 		return true
 	}
+	if cf.UDPMin > 1452 {
+		return true // larger than any datagram the connection can send: refused before sending, or padded as far as possible
+	}
 	for _, p := range cf.Plans {
 		if p.PS > 0 {
 			return true // "Must leave room": decided after the fact from the natural size, or refused
